@@ -298,10 +298,13 @@ def union_on_path(ty, steps, value):
     """the innermost Union node met when following `steps` from type `ty` (value = the original instance side)"""
     last_union = None
     t, v = ty, value
+    enclosing = {}
     for step in steps + [None]:
-        # unwrap optional / union at this level
-        while t is not None and t['k'] in ('optional', 'union'):
-            if t['k'] == 'union':
+        # unwrap optional / union at this level ('ref': back to the enclosing class model of that name)
+        while t is not None and t['k'] in ('optional', 'union', 'ref'):
+            if t['k'] == 'ref':
+                t = enclosing.get(t['name'])
+            elif t['k'] == 'union':
                 last_union = t
                 cand = [m for m in t['a'] if _shape_ok(v, m)]
                 t = cand[0] if len(cand) == 1 else None
@@ -311,6 +314,8 @@ def union_on_path(ty, steps, value):
             break
         kind, arg = step
         k = t['k']
+        if k == 'cls':
+            enclosing[t['info']['name']] = t
         try:
             if kind == 'field' and k == 'cls':
                 t = dict((n, ft) for n, ft in t['ftys'])[arg]
